@@ -523,6 +523,20 @@ def build_jobs(tier):
                        ' n=3: all 6^3 state sequences x all 7 cuts, settings '
                        'with batch_size in {0,2} for shifted cuts (all 144 '
                        'for the base cut)')
+        # several batches of surplus: more finished roots than
+        # max_finished_executions + batch_size
+        deep = ((None, T), (1, 2, 3), (1, 2, 3), ((), ('ERROR',)))
+        jobs += jobs_A(4, alphabet=('SUCCESS', 'ERROR', 'RUNNING'),
+                       sset_base=deep, sset_shifted=deep)
+        jobs += jobs_A(5, alphabet=('SUCCESS', 'RUNNING'),
+                       sset_base=deep, sset_shifted=deep)
+        jobs += jobs_A(6, alphabet=('SUCCESS',), sset_base=deep,
+                       sset_shifted=deep)
+        bounds['A-deep'] = ('n=4 roots over {SUCCESS,ERROR,RUNNING}, n=5 '
+                            'over {SUCCESS,RUNNING}, n=6 all SUCCESS: all '
+                            'cuts, older_than in {unset,T}, '
+                            'max_finished in {1,2,3}, batch_size in '
+                            '{1,2,3}, ignored in {-, ERROR}')
         for n in (2,):
             jobs += jobs_T(n)
         bounds['T'] = 'n=2 roots with tied age class, all 144 settings'
